@@ -57,7 +57,7 @@ def rebuild (H : Bytes → Bytes) (d : KVPairs) : Nat → Nat → Nat → Rebuil
       | some (.inner h sz k hash l r) =>
         match l, r with
         | .new lv ln, .new rv rn =>
-          match rebuild H d fuel lv ln, rebuild H d fuel rv rn with
+          match rebuild H d fuel lv.toNat ln, rebuild H d fuel rv.toNat rn with
           | .ok lt lvis, .ok rt rvis =>
             let t : Node Bytes Bytes := .inner k h.toNat sz.toNat (some ver) lt rt
             if h < 1 then .bad s!"inner ({ver},{nonce}) has height {h}"
